@@ -20,6 +20,15 @@ Oracle 1 (layout leg, complete here):
         when there are exactly 148 / 444, all but two when there are exactly 150 / 446.
     A datagram with a version other than 0/1 that the parser accepts is only counted (the layout in the
     property statement covers versions 0 and 1).
+History (keys C04:history:...): per work item ONE long-lived TxMsg and ONE long-lived RxMsg additionally parse every
+  datagram of the decoder legs, in sequence: the reference encoding of each enumerated case, followed (every case of a
+  base / burst chunk, every 32nd case of a sweep, every base of the mutation leg; of the same-shape case datagrams of a sweep
+  every 8th - of an all-FN sweep every 32nd - goes to the long-lived object) by its header-only truncation, a
+  NOPE.ind (rx; after a NOPE.ind a v1 datagram with burst instead) / the header with the other version (tx) and a
+  datagram of the same kind with another burst length; in the mutation leg also the whole neighbourhood with the
+  header-only truncation between the groups.  Whenever the long-lived object accepts a datagram it must read exactly
+  what the layout says about THAT datagram (same comparison as for a fresh object - in particular no burst when the
+  datagram has none).  After a ValueError nothing is demanded until the next successful parse.
 Oracle 2 (interop leg, `interop_leg`): through vlib/trxcon_drv.py (subprocess driver around trxcon's
   real trx_if.c, built from $VERIF_REPO).  Skipped with coverage["interop_leg"] = "driver not available" when
   it cannot be imported.
@@ -120,7 +129,7 @@ def check_enc(e, c):
 # decoder side
 
 def check_reading(e, cls, data):
-    """Hand `data` to the toolkit parser and compare with the reference reading.
+    """Hand `data` to the toolkit parser (FRESH object) and compare with the reference reading.
     -> (status, [(key, msg)]); status: 'accepted' | 'rejected' | 'raised:<Exc>' | 'accepted-other-version'"""
     dm = e["dm"]
     p = dm.TxMsg() if cls == "tx" else dm.RxMsg()
@@ -130,12 +139,18 @@ def check_reading(e, cls, data):
         return "rejected", []
     except Exception as ex:
         return "raised:" + type(ex).__name__, []
+    return compare_ref(e, cls, data, p, "layout")
+
+
+def compare_ref(e, cls, data, p, fam):
+    """Compare what object p holds after it ACCEPTED `data` with the reference reading of `data`.
+    fam = "layout" (fresh object) or "history" (long-lived object that parsed other datagrams before)."""
     v = (data[0] >> 4) if len(data) else None
     if v not in (0, 1):
         if len(data) == 0:
-            return "accepted", [("C04:layout:%s:dec:accepts-empty" % cls, "parser accepted an empty datagram")]
+            return "accepted", [("C04:%s:%s:dec:accepts-empty" % (fam, cls), "parser accepted an empty datagram")]
         return "accepted-other-version", []
-    pre = "C04:layout:%s:v%d:dec" % (cls, v)
+    pre = "C04:%s:%s:v%d%s" % (fam, cls, v, ":dec" if fam == "layout" else "")
     d = trxd.dec_tx(data) if cls == "tx" else trxd.dec_rx(data)
     if d is None:
         return "accepted", [(pre + ":accepts-short", "parser accepted %d octets (%s), shorter than the version-%d header"
@@ -193,7 +208,7 @@ def check_reading(e, cls, data):
     elif L - 2 in (148, 444):
         allowed = (L - 2,)
     else:
-        allowed = (L, L - 2)
+        allowed = (L, L - 2) if L >= 2 else (L,)
     if n not in allowed:
         out.append((pre + ":burst-length", "burst: toolkit reads %d soft bits from %d octets after the header (allowed %s)"
                     % (n, L, list(allowed))))
@@ -227,6 +242,160 @@ def check_case(e, c, stat=None):
 
 
 # ---------------------------------------------------------------------------------------------
+# history: ONE long-lived TxMsg and ONE long-lived RxMsg per work item parse every datagram as well
+
+class History:
+    """The long-lived decoder objects of one work item (scoped per work item, not per worker process, so that
+    the result does not depend on how items are handed out).  feed() parses one more datagram into the object
+    of its class; when the parse succeeds, the object must read exactly what the layout says about THIS datagram
+    (no burst left over from an earlier datagram, ...).  Nothing is demanded after a ValueError."""
+
+    def __init__(self, e):
+        self.e = e
+        dm = e["dm"]
+        self.obj = {"tx": dm.TxMsg(), "rx": dm.RxMsg()}
+        self.ring = {"tx": [], "rx": []}          # the two datagrams fed before the current one
+        self.prev = {"tx": None, "rx": None}      # (version, octets after the header) of the last accepted datagram
+        self.cov = {"hist_parses": 0, "hist_accepted": 0, "hist_rejected": 0, "hist_other_exception": 0,
+                    "hist_burst_to_noburst": 0, "hist_noburst_to_burst": 0, "hist_length_changes": 0,
+                    "hist_version_changes": 0, "hist_minimised": 0, "hist_not_minimised": 0}
+
+    def feed(self, cls, data):
+        """-> (status, [(key, msg)], history as list of bytes)"""
+        p = self.obj[cls]
+        ring = self.ring[cls]
+        hist = ring + [data]
+        self.ring[cls] = hist[-2:]
+        cov = self.cov
+        cov["hist_parses"] += 1
+        try:
+            p.parse_msg(bytes(data) if cls == "tx" else bytearray(data))
+        except ValueError:
+            cov["hist_rejected"] += 1
+            return "rejected", [], hist
+        except Exception:
+            cov["hist_other_exception"] += 1
+            return "raised", [], hist
+        cov["hist_accepted"] += 1
+        st, r = compare_ref(self.e, cls, data, p, "history")
+        v = data[0] >> 4
+        if v in (0, 1):
+            cur = (v, len(data) - HDR[(cls, v)])
+            prev = self.prev[cls]
+            if prev is not None:
+                if prev[1] > 0 and cur[1] <= 0:
+                    cov["hist_burst_to_noburst"] += 1
+                elif prev[1] <= 0 and cur[1] > 0:
+                    cov["hist_noburst_to_burst"] += 1
+                elif prev[1] != cur[1]:
+                    cov["hist_length_changes"] += 1
+                if prev[0] != cur[0]:
+                    cov["hist_version_changes"] += 1
+            self.prev[cls] = cur
+        return st, r, hist
+
+
+def replay_history(e, cls, hist):
+    """parse the datagrams of `hist` one after the other into ONE new object; -> problems of the last one"""
+    H = History(e)
+    r = []
+    for d in hist:
+        _, r, _ = H.feed(cls, d)
+    return r
+
+
+def history_viol(e, H, cls, key, msg, hist, seq_ref):
+    """violation record for a history finding: the shortest history that reproduces it (the datagram and the
+    one or two before it), else the position in the work item's datagram sequence"""
+    for h in (hist[-2:], hist):
+        if any(k == key for k, _ in replay_history(e, cls, h)):
+            H.cov["hist_minimised"] += 1
+            hist = h
+            case = {"leg": "history", "cls": cls, "history": [d.hex() for d in h]}
+            break
+    else:
+        H.cov["hist_not_minimised"] += 1
+        case = {"leg": "history-seq", "cls": cls, "seq": seq_ref[0], "n": seq_ref[1]}
+    return (key, case, msg + " [object had parsed %s before]" % ", ".join("%d octets (v%d)" % (len(d), d[0] >> 4 if d else -1)
+                                                                          for d in hist[:-1]))
+
+
+def extras(c, D):
+    """burst-less / other-shape datagrams visited after the datagram D of case c, so that the long-lived object
+    alternates between datagrams with and without burst, versions and lengths"""
+    cls = c["cls"]
+    hl = HDR[(cls, c["ver"])]
+    if len(D) > hl:
+        yield "hdr-only", D[:hl]
+    if cls == "tx":
+        yield "hdr-only-other-version", bytes([D[0] ^ 0x10]) + D[1:6]
+    elif c["ver"] == 1 and c["nope"]:
+        # after a NOPE.ind: a version-1 datagram WITH burst, so that the next NOPE.ind follows a burst
+        yield "v1-burst", trxd.enc_rx(1, c["tn"], c["fn"], c["rssi"], c["toa"], _RAMP148, mod="GMSK", tsc_set=0, tsc=0, ci=c["ci"])
+    else:
+        yield "nope", trxd.enc_rx(1, c["tn"], c["fn"], c["rssi"], c["toa"], None, ci=c["ci"] if c["ci"] is not None else 0, nope=True)
+    # a datagram of the same kind with ANOTHER burst length, so that the next datagram follows a burst of different length
+    if cls == "tx":
+        yield "other-length", trxd.enc_tx(c["ver"], c["tn"], c["fn"], c["pwr"], _ALT[444 if c["bl"] == 148 else 148])
+    elif c["ver"] == 0:
+        yield "other-length", trxd.enc_rx(0, c["tn"], c["fn"], c["rssi"], c["toa"], _RAMP[444 if c["bl"] == 148 else 148])
+    elif not c["nope"]:
+        m2 = _OTHER_MOD[c["mod"]]
+        yield "other-length", trxd.enc_rx(1, c["tn"], c["fn"], c["rssi"], c["toa"], _RAMP[E.MOD_BL[m2]], mod=m2, tsc_set=0,
+                                          tsc=c["tsc"], ci=c["ci"])
+
+
+_RAMP = {bl: tuple(E.soft_bits(bl, ("ramp",))) for bl in (148, 296, 444, 592, 740)}
+_ALT = {bl: E.hard_bits(bl, ("alt",)) for bl in (148, 444)}
+_RAMP148 = _RAMP[148]
+# modulation -> the next one in the list whose burst length differs
+_OTHER_MOD = {"GMSK": "8PSK", "8PSK": "GMSK_AB", "GMSK_AB": "16QAM", "16QAM": "32QAM", "32QAM": "AQPSK", "AQPSK": "GMSK"}
+SWEEP_EXTRAS_EVERY = 32
+SWEEP_REUSE_EVERY = 8       # in sweeps (same shape throughout) every 8th case also goes through the long-lived object(s)
+
+
+def seq_chunk(e, chunk):
+    """datagram sequence of an enumeration chunk: (kind, cls, datagram, case); kind 'case' = the reference encoding
+    of an enumerated case; the extras follow every case of a base / burst chunk and every 32nd case of a sweep"""
+    every = SWEEP_EXTRAS_EVERY if chunk[0] == "sweep" else 1
+    allfn = chunk[0] == "sweep" and chunk[4] == "all"
+    for i, c in enumerate(E.cases(chunk)):
+        D = ref_octets(e, c)
+        # "case" datagrams go to the fresh AND the long-lived object: every case of a base / burst chunk, every 8th of a
+        # sweep (all datagrams of a sweep have the same shape), every 32nd of an all-FN sweep; "case-fresh-only" otherwise
+        yield ("case" if i % (every if allfn else (SWEEP_REUSE_EVERY if chunk[0] == "sweep" else 1)) == 0 else "case-fresh-only"), c["cls"], D, c
+        if i % every == 0:
+            for kind, X in extras(c, D):
+                yield kind, c["cls"], X, c
+
+
+def seq_mut(e, cases):
+    """datagram sequence of a mutation work item: per base message its reference encoding, the extras, the
+    encoding again, then the mutation neighbourhood with the header-only truncation between the groups"""
+    for c in cases:
+        cls = c["cls"]
+        D = ref_octets(e, c)
+        hl = HDR[(cls, c["ver"])]
+        yield "base", cls, D, c
+        for kind, X in extras(c, D):
+            yield kind, cls, X, c
+        yield "base", cls, D, c
+        seen = set()
+        last = None
+        for lab, data in neighbourhood(cls, c["ver"], D, c["bl"] or 0):
+            if data in seen:        # e.g. prefix == truncation
+                continue
+            seen.add(data)
+            if last is not None and lab != last and len(D) > hl:
+                yield "hdr-only", cls, D[:hl], c
+            last = lab
+            yield lab, cls, data, c
+
+
+MUT_LABELS = ("octet", "burst-first", "burst-last", "last-octet", "trunc", "prefix", "ext")
+
+
+# ---------------------------------------------------------------------------------------------
 # mutation neighbourhood
 
 def neighbourhood(cls, ver, D, bl):
@@ -256,20 +425,15 @@ def neighbourhood(cls, ver, D, bl):
 
 def work_mut(cases):
     e = env()
-    cov = {"mut_evaluations": 0, "mut_accepted": 0, "mut_rejected": 0, "mut_other_exception": {}, "mut_bases": 0,
-           "mut_accepted_other_version": 0, "mut_by_kind": {}, "mut_accepted_by_kind": {}}
+    H = History(e)
+    cov = {"mut_evaluations": 0, "mut_accepted": 0, "mut_rejected": 0, "mut_other_exception": {}, "mut_bases": len(cases),
+           "mut_accepted_other_version": 0, "mut_by_kind": {}, "mut_accepted_by_kind": {}, "hist_extra_datagrams": 0}
     viol, vkeys, nviol = [], set(), 0
-    for c in cases:
-        D = ref_octets(e, c)
-        cov["mut_bases"] += 1
-        seen = set()
-        for lab, data in neighbourhood(c["cls"], c["ver"], D, c["bl"] or 0):
-            if data in seen:        # e.g. prefix == truncation
-                continue
-            seen.add(data)
+    for n, (lab, cls, data, c) in enumerate(seq_mut(e, cases)):
+        st, r = check_reading(e, cls, data)
+        if lab.startswith(MUT_LABELS):
             cov["mut_evaluations"] += 1
             cov["mut_by_kind"][lab] = cov["mut_by_kind"].get(lab, 0) + 1
-            st, r = check_reading(e, c["cls"], data)
             if st == "accepted":
                 cov["mut_accepted"] += 1
                 cov["mut_accepted_by_kind"][lab] = cov["mut_accepted_by_kind"].get(lab, 0) + 1
@@ -279,11 +443,20 @@ def work_mut(cases):
                 cov["mut_accepted_other_version"] += 1
             else:
                 cov["mut_other_exception"][st] = cov["mut_other_exception"].get(st, 0) + 1
-            for key, msg in r:
-                nviol += 1
-                if key not in vkeys:
-                    vkeys.add(key)
-                    viol.append((key, {"leg": "mut", "cls": c["cls"], "data": data.hex(), "mutation": lab, "of": c}, msg))
+        else:
+            cov["hist_extra_datagrams"] += 1
+        for key, msg in r:
+            nviol += 1
+            if key not in vkeys:
+                vkeys.add(key)
+                viol.append((key, {"leg": "mut", "cls": cls, "data": data.hex(), "mutation": lab, "of": c}, msg))
+        _, hr, hist = H.feed(cls, data)
+        for key, msg in hr:
+            nviol += 1
+            if key not in vkeys:
+                vkeys.add(key)
+                viol.append(history_viol(e, H, cls, key, msg, hist, (["mut", cases], n)))
+    cov.update(H.cov)
     return {"cov": cov, "viol": viol, "nviol_extra": nviol - len(viol)}
 
 
@@ -292,6 +465,7 @@ def work_mut(cases):
 
 def work(chunk):
     e = env()
+    H = History(e)
     stat = {}
     by_class, by_group = {}, {}
     viol, vkeys, nviol = [], set(), 0
@@ -299,27 +473,40 @@ def work(chunk):
     good = 0
     sample = None
     n = 0
+    nextra = 0
     sweep = chunk[3] if chunk[0] == "sweep" else None
-    for c in E.cases(chunk):
-        n += 1
-        r = check_case(e, c, stat)
-        k = c[sweep] if sweep else E.case_key(c)
-        if k not in keys:
-            keys.add(k)
-            if not any(":raises-" in x[0] for x in r):
-                good += 1
-        kl = E.class_of(c)
-        by_class[kl] = by_class.get(kl, 0) + 1
-        by_group[c["grp"]] = by_group.get(c["grp"], 0) + 1
-        if sample is None:
-            sample = c
-        for key, msg in r:
+    for i, (kind, cls, data, c) in enumerate(seq_chunk(e, chunk)):
+        if kind.startswith("case"):
+            n += 1
+            r = check_case(e, c, stat)
+            k = c[sweep] if sweep else E.case_key(c)
+            if k not in keys:
+                keys.add(k)
+                if not any(":raises-" in x[0] for x in r):
+                    good += 1
+            kl = E.class_of(c)
+            by_class[kl] = by_class.get(kl, 0) + 1
+            by_group[c["grp"]] = by_group.get(c["grp"], 0) + 1
+            if sample is None:
+                sample = c
+            for key, msg in r:
+                nviol += 1
+                if key not in vkeys:
+                    vkeys.add(key)
+                    viol.append((key, c, msg))
+            if kind == "case-fresh-only":
+                continue
+        else:
+            nextra += 1         # extras go to the long-lived object only (their shapes are covered by the mutation leg's prefixes)
+        _, hr, hist = H.feed(cls, data)
+        for key, msg in hr:
             nviol += 1
             if key not in vkeys:
                 vkeys.add(key)
-                viol.append((key, c, msg))
+                viol.append(history_viol(e, H, cls, key, msg, hist, (["chunk", chunk], i)))
     cov = dict(stat, evaluations=n, distinct_cases=len(keys), distinct_nontrivial=good, octet_comparisons=n,
-               reading_comparisons=n, by_class=by_class, by_group=by_group, chunks=1)
+               reading_comparisons=n, by_class=by_class, by_group=by_group, chunks=1, hist_extra_datagrams=nextra)
+    cov.update(H.cov)
     return {"cov": cov, "viol": viol, "nviol_extra": nviol - len(viol),
             "samples": [dict(sample, ref_octets_head=ref_octets(e, sample)[:12].hex())] if sample else []}
 
@@ -362,8 +549,8 @@ def _interop_chunks(tier):
             continue
         p = P[ch[1]]
         if p["kind"] == "K2":
-            if tier != "thorough" and ch[0] == "sweep" and ch[3] == "toa" and p["tn"] != 0:
-                continue            # quick: the 65536-value ToA sweep through trxcon at TN 0 only (legacy off and on)
+            if tier != "thorough" and ch[0] == "sweep" and ch[3] == "toa" and (p["tn"] != 0 or (p["legacy"] and ch[2] != 1)):
+                continue            # quick: the 65536-value ToA sweep through trxcon at TN 0 only (legacy on: mid base point only)
             if ch[0] == "sweep" and ch[4] == "all" and p["legacy"]:
                 continue            # thorough: all 2715648 FN through trxcon's receive path once (legacy off)
             rx.append(ch)
@@ -564,9 +751,14 @@ def run(ctx):
                  "00/7f/ff) of the reference encodings of the base messages at %s: parse result compared with the reference reading "
                  "when accepted (mut_* counters). distinct_nontrivial counts only the distinct enumerated cases whose octets were "
                  "produced and compared (case key = all message fields + burst pattern + legacy flag); mutated datagrams differ from "
-                 "their base by construction and are counted separately, duplicates across bases not removed. Interop leg: %s; "
+                 "their base by construction and are counted separately, duplicates across bases not removed. History (hist_* counters): "
+                 "every datagram of both decoder legs, plus per visited case/base its header-only truncation, a NOPE.ind or "
+                 "other-version header and a same-kind datagram of another burst length (after every case of base/burst chunks, every "
+                 "32nd case of sweeps, every mutation base and between mutation groups; of the same-shape datagrams of a sweep every "
+                 "8th, of an all-FN sweep every 32nd), is also parsed into ONE long-lived TxMsg / "
+                 "RxMsg per work item and compared with the reference reading whenever accepted. Interop leg: %s; "
                  "rx = the base / sweep / burst-pattern cases of the rx v0 points with not-carried fields None (legacy off/on, TN; "
-                 "in quick the ToA sweep at TN 0 only, in thorough the all-FN sweep with legacy off only) encoded by the toolkit and decoded by trxcon's trx_data_rx_cb, tx = the cases "
+                 "in quick the ToA sweep at TN 0 only - with legacy on at the mid base point only -, in thorough the all-FN sweep with legacy off only) encoded by the toolkit and decoded by trxcon's trx_data_rx_cb, tx = the cases "
                  "of the tx v0 points without legacy padding (FN over the boundary set) given to trx_if_handle_phyif_burst_req and parsed back by TxMsg "
                  "(interop_* counters)."
                  % ("every tx / rx v0 / rx v1 NOPE point and every rx v1 burst point (3 base points each; version-1 points with "
@@ -588,6 +780,24 @@ def replay(ctx, case):
         st, r = check_reading(e, case["cls"], bytes.fromhex(case["data"]))
         for k, m in r:
             ctx.violation(k, case, m)
+    elif leg == "history":
+        hist = [bytes.fromhex(h) for h in case["history"]]
+        for k, m in replay_history(e, case["cls"], hist):
+            ctx.violation(k, case, m + " [object had parsed %s before]" % ", ".join(
+                "%d octets (v%d)" % (len(d), d[0] >> 4 if d else -1) for d in hist[:-1]))
+    elif leg == "history-seq":
+        kind, spec = case["seq"]
+        seq = seq_chunk(e, spec) if kind == "chunk" else seq_mut(e, spec)
+        H = History(e)
+        for i, (lab, cls, data, c) in enumerate(seq):
+            if lab == "case-fresh-only":
+                continue
+            _, hr, hist = H.feed(cls, data)
+            if i == case["n"]:
+                for k, m in hr:
+                    ctx.violation(k, case, m + " [object had parsed %s before]" % ", ".join(
+                        "%d octets (v%d)" % (len(d), d[0] >> 4 if d else -1) for d in hist[:-1]))
+                break
     elif leg in ("interop-rx", "interop-tx"):
         from vlib import trxcon_drv, cbuild
         bdir = cbuild.builddir("c04r")
